@@ -17,6 +17,7 @@ from earthkit.workflows.graph import (
     rename_nodes,
     split_graph,
 )
+from earthkit.workflows.graph import join_namespaced
 
 from vf import common
 from vf.graphs import GraphSpec, Interp, Malformed, all_nodes, dag_specs, freeze, with_swapped_twins
@@ -103,6 +104,29 @@ def t_rename(spec: GraphSpec):
             out.append(V("rename_changes_denotation", "a sink denotes a different expression after renaming", f"{spec.tag}/{rname}"))
         if sorted(n.name for n in r.nodes()) != sorted(map(f, names)):
             out.append(V("rename_names", "names are not the images of the original names", f"{spec.tag}/{rname}"))
+    return out
+
+
+def t_join_ns(spec: GraphSpec):
+    """join_namespaced: the union of two graphs with every node name prefixed by its namespace"""
+    out = []
+    g1, o1 = spec.build()
+    g2, o2 = spec.build()
+    before = terms_of_sinks(g1) + terms_of_sinks(g2)
+    names = [n.name for n in o1]
+    try:
+        j = join_namespaced(left=g1, right=g2)
+        wellformed(j)
+        after = terms_of_sinks(j)
+    except Malformed as e:
+        return [V("join_ns_malformed", "a consumer's input is not an Output of a Node", f"{spec.tag}: {e}")]
+    except Exception as e:
+        return [V("join_ns_raised", f"{type(e).__name__} in {where_of(e)}", f"{spec.tag}: {e!r}")]
+    if after != before:
+        out.append(V("join_ns_changes_denotation", "a sink of the joined graph denotes a different expression", spec.tag))
+    want = sorted([f"left.{n}" for n in names] + [f"right.{n}" for n in names])
+    if sorted(n.name for n in j.nodes()) != want:
+        out.append(V("join_ns_names", "names are not the namespaced images of the original names", f"{spec.tag}: {sorted(n.name for n in j.nodes())[:6]}"))
     return out
 
 
@@ -445,7 +469,7 @@ def t_split(spec: GraphSpec):
     return out
 
 
-TRANSFORMS = {"copy": t_copy, "rename": t_rename, "dedup": t_dedup, "fuse": t_fuse, "expand": t_expand, "split": t_split}
+TRANSFORMS = {"copy": t_copy, "join_ns": t_join_ns, "rename": t_rename, "dedup": t_dedup, "fuse": t_fuse, "expand": t_expand, "split": t_split}
 
 
 def specs_for(ctx):
